@@ -173,6 +173,10 @@ class Engine:
         self.depth_limit = 400
         self.check_tags = {}
         self._describe = None
+        self._memo = {}
+        self._capture = None
+        self._pure_cache = {}
+        self.path_memo = {}
 
     # ------------------------------------------------------------------ symbols
     def fresh_bv(self, name, bits):
@@ -195,7 +199,36 @@ class Engine:
             return
         if self.collect is not None:
             self.collect['pc'].append(cond)
+        if self._capture is not None:
+            self._capture.append(cond)
         self.solver.add(cond)
+
+    def memo(self, key, builder):
+        """Cache the result of a deterministic, expensive harness step (e.g. Predictor::new on a model with
+        symbolic weights) across paths of this worker.  The step is re-validated by the decisions it consumed:
+        a cached entry is only used when the upcoming recorded decisions equal those taken when it was built;
+        the constraints it added are re-asserted.  The cached value must not be mutated afterwards."""
+        ents = self._memo.setdefault(key, [])
+        upcoming = self.decisions[self.pos:]
+        for decs, val, log in ents:
+            k = min(len(decs), len(upcoming))
+            if list(decs[:k]) == list(upcoming[:k]):
+                if len(upcoming) < len(decs):
+                    self.decisions.extend(decs[len(upcoming):])
+                self.pos += len(decs)
+                for c in log:
+                    self.solver.add(c)
+                self.stats.memo_hits = getattr(self.stats, 'memo_hits', 0) + 1
+                return val
+        pos0 = self.pos
+        log = []
+        self._capture = log
+        try:
+            val = builder()
+        finally:
+            self._capture = None
+        ents.append((tuple(self.decisions[pos0:self.pos]), val, log))
+        return val
 
     def assume(self, cond):
         """harness-level assumption: constrain the path (ends it if infeasible)"""
@@ -286,6 +319,13 @@ class Engine:
         if cond is True:
             self.stats.assert_structural += 1
             return True
+        if cond is not False:
+            cond = z3.simplify(cond)
+            if z3.is_true(cond):
+                self.stats.assert_structural += 1
+                return True
+            if z3.is_false(cond):
+                cond = False
         self.stats.assert_checks += 1
         if cond is False:
             r = z3.sat; neg = None
@@ -335,6 +375,7 @@ class Engine:
         self.solver = z3.Solver()
         self.solver.set('timeout', self.timeout_ms)
         self._describe = describe
+        self.path_memo = {}
         self.callstack = []
         self.frame_subst = [{}]
         self.collect = None
@@ -627,6 +668,10 @@ class Engine:
                 if other is None:
                     raise Panic('UB: switchInt without matching arm in ' + f.name, 'ub')
                 return other
+            if len(arms) == 2:
+                r = self.try_merge(f, loc, term, v, None)
+                if r is not None:
+                    return r
             conds = []; dsts = []; neg = []
             for key, dst in arms:
                 if key is None:
@@ -635,6 +680,10 @@ class Engine:
                     c1 = t == z3.BitVecVal(key, v.bits); neg.append(c1); conds.append(c1); dsts.append(dst)
             return dsts[self.branch(conds)]
         if is_bool(v):
+            if not isinstance(v, bool) and len(arms) == 2:
+                r = self.try_merge(f, loc, term, None, v)
+                if r is not None:
+                    return r
             tv = self.truth(v)
             want = 1 if tv else 0
             other = None
@@ -645,6 +694,118 @@ class Engine:
                     return dst
             return other
         raise Unsupported('switchInt on %r in %s' % (v, f.name))
+
+    # ---- if-conversion of small pure diamonds (keeps e.g. `if s > 0 {WB} else {NB}` as one ite term)
+    _PURE_RV = ('use', 'variant', 'cast', 'un')
+    _PURE_BIN = ('Eq', 'Ne', 'Lt', 'Le', 'Gt', 'Ge', 'BitAnd', 'BitOr', 'BitXor')
+
+    def _pure_block(self, f, bb):
+        key = (f.name, bb)
+        r = self._pure_cache.get(key)
+        if r is None:
+            stmts = f.parsed()[bb]
+            okp = len(stmts) <= 6 and stmts[-1][0] == 'goto'
+            if okp:
+                for s in stmts[:-1]:
+                    if s[0] == 'nop':
+                        continue
+                    if s[0] != 'assign':
+                        okp = False; break
+                    rv = s[2]
+                    if rv[0] in self._PURE_RV:
+                        if rv[0] == 'variant' and rv[2]:
+                            okp = False; break
+                        if rv[0] == 'cast' and rv[3] != 'IntToInt':
+                            okp = False; break
+                        continue
+                    if rv[0] == 'bin' and rv[1] in self._PURE_BIN:
+                        continue
+                    okp = False; break
+            r = self._pure_cache[key] = (stmts[-1][1] if okp else False)
+        return r
+
+    def try_merge(self, f, loc, term, vint, vbool):
+        arms = term[2]
+        (k1, d1), (k2, d2) = arms
+        if self.pos < len(self.decisions):
+            pass
+        j1 = self._pure_block(f, d1)
+        j2 = self._pure_block(f, d2)
+        join = None
+        if j1 and j2 and j1 == j2:
+            join = j1; blocks = (d1, d2)
+        elif j1 and j1 == d2:
+            join = d2; blocks = (d1, None)
+        elif j2 and j2 == d1:
+            join = d1; blocks = (None, d2)
+        else:
+            return None
+        # condition for taking arm 1
+        if vbool is not None:
+            # arms keyed 0 / otherwise (or 1)
+            c1 = vbool if (k1 == 1 or (k1 is None and k2 == 0)) else z3.Not(vbool)
+        else:
+            if k1 is None:
+                c1 = vint.t != z3.BitVecVal(k2, vint.bits)
+            else:
+                c1 = vint.t == z3.BitVecVal(k1, vint.bits)
+        writes = []
+        for bb in blocks:
+            log = {}
+            order = []
+            if bb is not None:
+                for s in f.parsed()[bb][:-1]:
+                    if s[0] != 'assign':
+                        continue
+                    try:
+                        val = self.rvalue(f, loc, s[2])
+                        cell = self.place_cell(f, loc, s[1])
+                    except (Panic, Unsupported):
+                        for cl, (old, new) in log.items():
+                            cl.v = old
+                        for w in writes:
+                            for cl, (old, new) in w.items():
+                                cl.v = old
+                        return None
+                    if cell not in log:
+                        log[cell] = [cell.v, None]; order.append(cell)
+                    cell.v = val
+                    log[cell][1] = val
+                for cl in order:
+                    cl.v = log[cl][0]       # undo
+            writes.append(log)
+        w1, w2 = writes
+        merged = {}
+        for cl in set(w1) | set(w2):
+            old = (w1.get(cl) or w2.get(cl))[0]
+            a = w1[cl][1] if cl in w1 else old
+            b = w2[cl][1] if cl in w2 else old
+            m = self._ite(c1, a, b)
+            if m is None:
+                return None
+            merged[cl] = m
+        for cl, m in merged.items():
+            cl.v = m
+        self.stats.merged_diamonds = getattr(self.stats, 'merged_diamonds', 0) + 1
+        return join
+
+    @staticmethod
+    def _ite(c, a, b):
+        if a is b:
+            return a
+        if a is None:       # temporary only initialised on one arm: dead on the other
+            return b
+        if b is None:
+            return a
+        if isinstance(a, Int) and isinstance(b, Int) and a.bits == b.bits:
+            if type(a.t) is int and type(b.t) is int and a.t == b.t:
+                return a
+            ra = a.interval(); rb = b.interval()
+            rng = (min(ra[0], rb[0]), max(ra[1], rb[1])) if ra is not None and rb is not None else None
+            return Int(z3.If(c, a.z(), b.z()), a.bits, a.sg, None, rng)
+        if is_bool(a) and is_bool(b):
+            return z3.If(c, b_z(a), b_z(b))
+        return None
 
     def set_discr(self, f, loc, place, idx):
         raise Unsupported('SetDiscriminant')
@@ -943,11 +1104,16 @@ class Engine:
             t = a.t
             if type(t) is int:
                 return Int(to_signed(t, a.bits) if a.sg else t, bits, sg)
+            rng = a.rng
+            if rng is not None:
+                tlo, thi = (-(1 << (bits - 1)), (1 << (bits - 1)) - 1) if sg else (0, (1 << bits) - 1)
+                if not (tlo <= rng[0] and rng[1] <= thi):
+                    rng = None
             if bits == a.bits:
-                return Int(t, bits, sg)
+                return Int(t, bits, sg, None, rng)
             if bits < a.bits:
-                return Int(z3.Extract(bits - 1, 0, t), bits, sg)
-            return Int(z3.SignExt(bits - a.bits, t) if a.sg else z3.ZeroExt(bits - a.bits, t), bits, sg)
+                return Int(z3.Extract(bits - 1, 0, t), bits, sg, None, rng)
+            return Int(z3.SignExt(bits - a.bits, t) if a.sg else z3.ZeroExt(bits - a.bits, t), bits, sg, None, rng)
         if kind in ('PointerCoercion', 'PtrToPtr', 'Transmute', 'PointerExposeProvenance', 'PointerWithExposedProvenance'):
             if kind == 'Transmute' and isinstance(a, (Int, Float)):
                 it = int_ty(ty)
@@ -1013,6 +1179,20 @@ class Engine:
         if type(x) is int and type(y) is int:
             return self.binop_conc(op, x, y, n, sg, b.bits)
         xz = a.z(); yz = b.z()
+        # interval reasoning: discharge overflow checks of sums of bounded terms without the solver
+        if op in ('Add', 'Sub', 'AddWithOverflow', 'SubWithOverflow', 'AddUnchecked', 'SubUnchecked'):
+            ra = a.interval(); rb = b.interval()
+            if ra is not None and rb is not None:
+                if op.startswith('Add'):
+                    lo, hi = ra[0] + rb[0], ra[1] + rb[1]
+                else:
+                    lo, hi = ra[0] - rb[1], ra[1] - rb[0]
+                tlo, thi = (-(1 << (n - 1)), (1 << (n - 1)) - 1) if sg else (0, (1 << n) - 1)
+                if tlo <= lo and hi <= thi:
+                    res = Int((xz + yz) if op.startswith('Add') else (xz - yz), n, sg, None, (lo, hi))
+                    if op.endswith('WithOverflow'):
+                        return Agg([res, False])
+                    return res
         if op in ('Shl', 'Shr', 'ShlUnchecked', 'ShrUnchecked') and b.bits != n:
             yz = z3.ZeroExt(n - b.bits, yz) if b.bits < n else z3.Extract(n - 1, 0, yz)
         if op in ('Add', 'AddUnchecked'):
